@@ -41,6 +41,8 @@ def build_sequences(wd):
             vs = []
             for i, s in enumerate(ch["sites"]):
                 pos = SP * (i + 1)
+                if i == 0 and wd.get("first_at_zero") and s["kind"] == "snv":
+                    pos = 0                 # a variant on the very first base of the contig (VCF POS 1)
                 k, ln = s["kind"], s.get("len", 1)
                 if k == "del" and not W.deletion_unshiftable(ref, pos, ln):
                     ok = False
@@ -117,6 +119,7 @@ def materialise(wd, d):
     for r in list(wd["reads"]) + list(wd.get("decoys", [])):
         ref, vs = seqs[r["chrom"]]
         hp = haps[(r["sample"], r["chrom"], r["hap"])]
+        hp_alleles = [wd["truth"][r["sample"]][r["chrom"]][si][r["hap"]] for si in range(len(vs))]
         if r.get("alleles"):
             # a read that is NOT an error-free copy: explicit alleles at the sites first..last (conflicts / chimeras)
             al = [wd["truth"][r["sample"]][r["chrom"]][si][r["hap"]] for si in range(len(vs))]
@@ -128,6 +131,9 @@ def materialise(wd, d):
             m1, m2 = rng.randint(12, 18), rng.randint(12, 18)
             s = max(0, vs[i].pos - m1)
             e = min(len(ref), vs[j].pos + len(vs[j].ref) + m2)
+            if r.get("cut") and vs[j].kind == "del" and hp_alleles[j] == 0:
+                # the read carries the REF allele of the deletion and ENDS inside the deleted stretch (still an error-free copy)
+                e = vs[j].pos + 1 + min(r["cut"], len(vs[j].ref) - 2)
             return hp.read(hp.ref_to_hap(s), hp.ref_to_hap(e))
         for _ in range(r.get("copies", 1)):
             n += 1
@@ -245,6 +251,9 @@ def materialise(wd, d):
                 precs.append({"chrom": names[ci], "pos": v.pos + 1, "ref": v.ref, "alt": v.alt, "fmt": ["GT", "PS"], "calls": calls})
         pvcf = W.write_vcf(os.path.join(d, "phaseinput.vcf"), samples, [(n_, len(s[0])) for n_, s in zip(names, seqs)], precs,
                            fmt_keys=("GT", "PS"))
+        if wd["phase_vcf"] == 2:        # a second phased VCF with the same statements (another source id for the same blocks)
+            import shutil as _sh
+            _sh.copy(pvcf, os.path.join(d, "phaseinput2.vcf"))
     return {"vcf": vcf, "bam": bam, "bam2": bam2, "pvcf": pvcf, "ref": os.path.join(d, "ref.fa"), "ped": ped, "seqs": seqs, "names": names}
 
 
@@ -286,8 +295,10 @@ def run_phase(wd, d, paths, vcf_in=None, out_name="out.vcf", phase_inputs=None, 
         out_arg = sys.stdout
     try:
         run_whatshap(
-            phase_input_files=phase_inputs or ([paths["bam"]] + ([paths["bam2"]] if paths.get("bam2") else [])
-                                               + ([paths["pvcf"]] if paths.get("pvcf") else [])),
+            phase_input_files=phase_inputs or (([] if o.get("vcf_only") and paths.get("pvcf") else
+                                                [paths["bam"]] + ([paths["bam2"]] if paths.get("bam2") else []))
+                                               + ([paths["pvcf"]] if paths.get("pvcf") else [])
+                                               + ([os.path.join(d, "phaseinput2.vcf")] if wd.get("phase_vcf") == 2 else [])),
             variant_file=vcf_in or paths["vcf"],
             reference=paths["ref"] if o.get("reference", True) else False,
             output=out_arg,
